@@ -103,7 +103,9 @@ AppendTg(tg, other, onlyMatching) ==
         THEN LET a == TierNamed(tg, n)
                  b == TierNamed(other, n)
                  sh == Edit(ConsK(b.kind, b.name, b.ents, lo, hi).tier, tg.hi, "warning")
-             IN IF a.kind # b.kind THEN [st |-> "OtherError"]
+             \* tiers of different types under one name: the entry lists are concatenated and handed to the receiver's
+             \* constructor, which fails to unpack a foreign entry (ValueError) - unless there is none
+             IN IF a.kind # b.kind THEN (IF b.ents = <<>> THEN ConsK(a.kind, a.name, a.ents, lo, hi) ELSE [st |-> "ValueError"])
                 ELSE IF sh.st # "ok" THEN [st |-> sh.st]
                 ELSE ConsK(a.kind, a.name, a.ents \o sh.ret.ents, lo, hi)
         ELSE IF HasName(tg, n) THEN [st |-> "ok", tier |-> TierNamed(tg, n)]
